@@ -62,13 +62,9 @@ def main():
         else:
             man['not_applicable'].append({'property_id': pid, 'reason': NOT_APPLICABLE.get(pid, PENDING_REASON)})
     json.dump(man, open(os.path.join(VERIF, 'MANIFEST.json'), 'w'), indent=1)
-    try:
-        import jsonschema
-        jsonschema.validate(man, json.load(open('/root/.vp/MANIFEST.schema.json')))
-        print('MANIFEST.json valid: %d checks, %d not_applicable' % (len(man['checks']), len(man['not_applicable'])))
-    except ImportError:
-        print('jsonschema not available; not validated')
-
+    r = subprocess.run(['python3-vt', '-c', 'import json,jsonschema,sys; jsonschema.validate(json.load(open(sys.argv[1])), json.load(open(sys.argv[2])))',
+                        os.path.join(VERIF, 'MANIFEST.json'), os.path.join(VERIF, 'orch', 'MANIFEST.schema.json')], capture_output=True, text=True)
+    print('MANIFEST.json %s: %d checks, %d not_applicable' % ('valid' if r.returncode == 0 else 'INVALID ' + r.stderr[-500:], len(man['checks']), len(man['not_applicable'])))
 
 if __name__ == '__main__':
     main()
